@@ -405,6 +405,19 @@ Varable failures: {var_failed}
         self._add2Varlist([key])
         return outvar
 
+    def renameVariables(self, *args, **kwds):
+        """
+        Wrapper on PseudoNetCDFFile.renameVariables that updates VAR-LIST,
+        NVARS, VAR, and TFLAG
+
+        See also
+        --------
+        see PseudoNetCDFFile.renameVariables
+        """
+        outf = PseudoNetCDFFile.renameVariables(self, *args, **kwds)
+        outf.updatemeta()
+        return outf
+
     def mask(self, *args, **kwds):
         """
         Wrapper on PseudoNetCDFFile.subsetVariables that updates VAR-LIST,
